@@ -142,20 +142,81 @@ func runC04On(c *Ctx, r *Report, pkgRel, typeName, ctorName string, control bool
 		if m.Object() != nil && !m.Object().Exported() && !isRawGetter(m) && calledOnlyByMethodsOf(c, m, tn) {
 			continue
 		}
+		for _, extra := range getterSpecialisations(c, m, tn) {
+			c04Method(c, r, pkgRel, m, ctor, tn, st, mutable, payloadIdx, control, fired, extra)
+		}
+	}
+	return fired
+}
+
+// getterSpecialisations: an unexported getter whose extra plain-int parameters (other than
+// its uint16 address and its ByteOrder) receive only constants at its call sites — all of
+// them static calls from methods of the same type — is analysed once per distinct constant
+// tuple instead of under arbitrary values it never receives. Anything else: one analysis
+// with every parameter symbolic.
+func getterSpecialisations(c *Ctx, m *ssa.Function, tn *types.Named) [][]AV {
+	generic := [][]AV{nil}
+	if m.Object() == nil || m.Object().Exported() || !calledOnlyByMethodsOf(c, m, tn) {
+		return generic
+	}
+	var idx []int
+	for i, p := range m.Params {
+		if i == 0 {
+			continue
+		}
+		b, ok := p.Type().(*types.Basic) // unnamed basic type only (ByteOrder etc. are named)
+		if ok && b.Info()&types.IsInteger != 0 && b.Kind() != types.Uint16 {
+			idx = append(idx, i)
+		}
+	}
+	if len(idx) == 0 {
+		return generic
+	}
+	seen := map[string]bool{}
+	var out [][]AV
+	for _, e := range c.callGraph().Nodes[m].In {
+		if e.Caller.Func.Synthetic != "" && len(e.Caller.In) == 0 {
+			continue // the never-called pointer-receiver wrapper of a value method
+		}
+		args := e.Site.Common().Args
+		vec := make([]AV, len(m.Params))
+		key := ""
+		for _, i := range idx {
+			k, ok := args[i].(*ssa.Const)
+			if !ok || k.Value == nil {
+				return generic
+			}
+			vec[i] = AInt{a: affConst(k.Int64())}
+			key += fmt.Sprintf("%d,", k.Int64())
+		}
+		if !seen[key] {
+			seen[key] = true
+			out = append(out, vec)
+		}
+	}
+	if len(out) == 0 {
+		return generic
+	}
+	sort.Slice(out, func(i, j int) bool { return fmt.Sprint(out[i]) < fmt.Sprint(out[j]) })
+	return out
+}
+
+func c04Method(c *Ctx, r *Report, pkgRel string, m, ctor *ssa.Function, tn *types.Named, st *types.Struct, mutable map[int]string, payloadIdx int, control bool, fired map[string]bool, extra []AV) {
+	{
 		an := &Analysis{ctx: c, u: newUniverse(), top: m}
 		recv, cst, cfr, ok := ctorInstance(an, ctor)
 		if !ok {
 			if !control {
 				r.undecided("R4.1", fnID(ctor), "constructor does not have a unique success return with an allocated object", c.pos(ctor.Pos()))
 			}
-			return fired
+			return
 		}
 		lit, isLit := recv.(AStructLit)
 		if !isLit {
 			if !control {
 				r.undecided("R4.1", fnID(ctor), "constructor result is not a struct literal", c.pos(ctor.Pos()))
 			}
-			return fired
+			return
 		}
 		fs := append([]AV(nil), lit.fields...)
 		for i := range fs {
@@ -171,7 +232,12 @@ func runC04On(c *Ctx, r *Report, pkgRel, typeName, ctorName string, control bool
 		an.onCall = func(f *Frame, ci ssa.CallInstruction, callee *ssa.Function, args []AV) {
 			calls = append(calls, c04Call{f: f, instr: ci, callee: callee, args: args, state: f.cur, pos: ci.Pos()})
 		}
-		fr := an.newFrame(m, nil, []AV{recvV})
+		args := append([]AV(nil), extra...)
+		if len(args) == 0 {
+			args = []AV{nil}
+		}
+		args[0] = recvV
+		fr := an.newFrame(m, nil, args)
 		fr.run(cst)
 		id := fnID(m)
 		if !control {
@@ -217,7 +283,6 @@ func runC04On(c *Ctx, r *Report, pkgRel, typeName, ctorName string, control bool
 			c04Accessor(c, r, an, fr, m, calls, fs, st)
 		}
 	}
-	return fired
 }
 
 type c04Call struct {
@@ -538,8 +603,15 @@ func c04Accessor(c *Ctx, r *Report, an *Analysis, fr *Frame, m *ssa.Function, ca
 					}
 				}
 			}
-			if len(cl.args) >= 3 {
-				if ai, ok := cl.args[2].(AInt); ok {
+			// the getter's order argument is the one of type ByteOrder (not simply the third)
+			ordIdx := -1
+			for k, p := range cl.callee.Params {
+				if named, ok := p.Type().(*types.Named); ok && named.Obj().Name() == "ByteOrder" {
+					ordIdx = k
+				}
+			}
+			if ordIdx >= 0 && ordIdx < len(cl.args) {
+				if ai, ok := cl.args[ordIdx].(AInt); ok {
 					o := ai.a
 					usedOrder = &o
 					// order in force: parameter if non-zero else default
